@@ -42,5 +42,30 @@ rows = ['| property | key | status | what |', '|---|---|---|---|']
 for k in kf:
     rows.append(f"| {k['property']} | `{k['key']}` | {k['status']} | {k['what'][:220].replace('|','/')} |")
 doc = block('findings', '\n'.join(rows), doc)
+# model / proof inventory
+def first_doc(path):
+    t = open(path).read()
+    m = re.search(r'/-[-!]?\s*(.*?)-/', t, flags=re.S)
+    if not m:
+        return ''
+    line = ' '.join(m.group(1).split())
+    return line[:150].replace('|', '/')
+rows = ['| file | lines | theorems / lemmas | what it holds (first words of its header) |', '|---|---|---|---|']
+tot = {'model': 0, 'proof': 0, 'driver': 0}
+for d, kind in (('FsicModel', 'model'), ('Proofs', 'proof'), ('Proofs/Lemmas', 'proof'), ('Driver', 'driver')):
+    for f in sorted(os.listdir(f'{V}/lean/{d}')):
+        if not f.endswith('.lean'):
+            continue
+        path = f'{V}/lean/{d}/{f}'
+        t = open(path).read()
+        n = t.count('\n')
+        tot[kind] += n
+        th = len(re.findall(r'^(?:theorem|lemma) ', t, flags=re.M))
+        if kind != 'driver':
+            rows.append(f'| {d}/{f} | {n} | {th} | {first_doc(path)} |')
+rows.append(f"| **total** | models {tot['model']}, proofs {tot['proof']}, drivers {tot['driver']} | | |")
+if '<!-- BEGIN:inventory -->' not in doc:
+    doc += '\n### 11.9 Model and proof inventory (generated)\n\n<!-- BEGIN:inventory -->\n<!-- END:inventory -->\n'
+doc = block('inventory', '\n'.join(rows), doc)
 open(f'{V}/DESIGN.md', 'w').write(doc)
 print('DESIGN.md tables regenerated')
